@@ -151,15 +151,37 @@ func VerifHarness_C11_wf() {
 	}
 	msg := c11Message(raw, nil)
 	m := NewMessage()
+	// the Message may have been used for an earlier message (the resend loop parses every stored message into one
+	// Message): nothing of that one may show through
+	old := []int{50, 58, 1, 93, 89}
+	reused := ndBool("parsed-into-a-used-message")
+	if reused {
+		verifCase("message-reused")
+		prev := c11Message([][]byte{[]byte("50=S\x01"), []byte("1=acc\x01"), []byte("58=old\x01"), []byte("93=4\x01"), []byte("89=ABCD\x01")}, nil)
+		verifAssume(ParseMessageWithDataDictionary(m, bytes.NewBuffer(prev), td, ad) == nil)
+	}
 	err := ParseMessageWithDataDictionary(m, bytes.NewBuffer(msg), td, ad)
 	verifAssert(err == nil, "well-formed-message-parses")
 	if err != nil {
 		return
 	}
 	c11CheckFields(m, fs, xh, xt, -1)
+	if reused {
+		for _, t := range old {
+			onWire := false
+			for _, f := range fs {
+				if f.tag == t {
+					onWire = true
+				}
+			}
+			if !onWire {
+				verifAssert(!m.Header.Has(Tag(t)) && !m.Body.Has(Tag(t)) && !m.Trailer.Has(Tag(t)), "nothing-exposed-that-is-not-on-the-wire")
+			}
+		}
+	}
 	// wire order kept for validation
 	verifAssert(len(m.fields) == 4+F, "fields-list-complete")
-	if len(m.fields) == 4+F {
+	if len(m.fields) >= 4+F {
 		for i, f := range fs {
 			verifAssert(int(m.fields[3+i].tag) == f.tag && verifBytesEq(m.fields[3+i].value, f.val), "fields-list-in-wire-order")
 		}
